@@ -82,7 +82,14 @@ func FindMajority(quorum, threshold uint, set ...uint) int {
 		return set[i] > set[j]
 	})
 
-	if quorum-sum+set[0] < th {
+	// NOTE more votes than quorum can be given; nothing is missing then and
+	// uint subtraction must not wrap around
+	var missing uint
+	if quorum > sum {
+		missing = quorum - sum
+	}
+
+	if missing+set[0] < th {
 		return -2
 	}
 
